@@ -111,7 +111,15 @@ def run_unit(unit_name, tier):
         res = fut_main.result()
         can = fut_can.result()
     cl = vx.classify(u, u.fns, res)
-    return {'unit': u, 'res': res, 'cl': cl, 'canary': can, 'new_trust': new_trust, 'wall_s': time.time() - t0}
+    seeds = []
+    if tier == 'thorough' and not cl['tool_errors']:
+        # stability run: the same unit under two other Z3 seeds and a 4x resource limit must give the same verdict per function
+        base = set(x['fn'].qual for x in cl['failures'])
+        for extra in (['--rlimit', '40', '--smt-option', 'smt.random_seed=11'], ['--rlimit', '40', '--smt-option', 'smt.random_seed=23']):
+            r2 = vx.run_verus(u.out, extra)
+            c2 = vx.classify(u, u.fns, r2)
+            seeds.append({'args': ' '.join(extra), 'verified': c2['verified'], 'same_verdict': set(x['fn'].qual for x in c2['failures']) == base})
+    return {'unit': u, 'res': res, 'cl': cl, 'canary': can, 'new_trust': new_trust, 'wall_s': time.time() - t0, 'seeds': seeds}
 
 
 def stability(u, fail_fns, tier):
@@ -161,6 +169,7 @@ def main(argv):
     kani_rows = []
     pending = []
     known_obligations = []
+    stability_runs = []
     try:
         # ---------------- Engine A ----------------
         results = {}
@@ -192,6 +201,10 @@ def main(argv):
             if r['new_trust']:
                 undecided.append('unit %s: trusted-base scan found entries not in specs/%s.trusted: %s' % (un, un, r['new_trust']))
                 continue
+            if any(not sd['same_verdict'] for sd in r.get('seeds', [])):
+                undecided.append('unit %s: verdict changes with the Z3 seed (unstable proof): %s' % (un, r['seeds']))
+                continue
+            stability_runs += [dict(sd, unit=un) for sd in r.get('seeds', [])]
             can = r['canary']
             canary_total += can['checked']
             vac = [q for q in can['vacuous'] if any(f.qual == q and fn_has_prop(f, prop) for f in u.fns)]
@@ -374,6 +387,7 @@ def main(argv):
             'kani_harnesses': kani_rows,
             'bounded_standins': bounded,
             'vacuity_canaries_checked': canary_total,
+            'stability_runs': stability_runs,
             'solver_time_ms': round(solver_ms, 1),
             'back_ends': sorted(set((['verus 0.2026.09.13 / z3'] if cfg.get('units') else []) + (['kani 0.68 / cbmc 6.11'] if kani_rows else []))),
             'undecided': undecided,
